@@ -110,40 +110,87 @@ def rule_a1(F):
     if lg is None:
         r.missing("value::list::ffi::list_get")
     else:
-        h = lg.hir["value"]
-        writes = []
-        for c in hir.nodes(h, "mcall"):
-            if c["m"] == "write" and c["args"]:
-                a0 = hir.strip(c["args"][0])
-                if a0.get("k") == "lit" and a0.get("lk") == "int":
-                    writes.append((a0["v"], c["line"]))
-        # Some arm writes 1 first (None) and 0 last; None arm writes 1
-        rows = {}
-        for mt in hir.nodes(h, "match"):
-            for row in hir.table(mt):
-                vals = []
-                for c in hir.nodes(row["body"], "mcall"):
-                    if c["m"] == "write" and c["args"] and hir.strip(c["args"][0]).get("k") == "lit":
-                        vals.append(hir.strip(c["args"][0])["v"])
-                if vals:
-                    rows[hir.last(row["alts"][0].split("(")[0])] = vals
+        ro = [a for a in F.adts() if a["path"] == "value::option::RotoOption"]
+        vnames = [v["name"] for v in ro[0]["variants"]] if ro else []
+        if "Some" not in vnames or "None" not in vnames:
+            r.missing("variants of value::option::RotoOption")
+            return r
+        some_idx, none_idx = vnames.index("Some"), vnames.index("None")
+        # forward dataflow over list_get: (last tag written, element copied/cloned yet)
+        def tag_of(t):
+            d = mir.callee_def(t) or ""
+            if hir.last(d) in ("write", "write_unaligned", "write_volatile") and "ptr" in d and len(t["args"]) > 1:
+                c = mir.op_const(t["args"][1])
+                if c is not None and isinstance(c.get("v"), int) and "u8" in str(c.get("ty", "u8")):
+                    return c["v"]
+            return None
+
+        def copies(t):
+            d = mir.callee_def(t) or ""
+            return "ind" in t["f"] or hir.last(d) in ("copy_nonoverlapping", "copy", "clone")
+        nb = len(lg.blocks)
+        sin = [set() for _ in range(nb)]
+        sin[0] = {(None, False)}
+        work = [0]
+        bad_pre, finals = [], set()
+        while work:
+            bi = work.pop()
+            blk = lg.blocks[bi]
+            if blk.get("cleanup"):
+                continue
+            t = blk["term"]
+            out = set(sin[bi])
+            if t["k"] == "call":
+                tg = tag_of(t)
+                if tg is not None:
+                    out = {(tg, c_) for _, c_ in out}
+                elif copies(t):
+                    if any(last != none_idx for last, _ in out):
+                        bad_pre.append(t.get("line"))
+                    out = {(last, True) for last, _ in out}
+            if t["k"] == "return":
+                finals |= out
+            for sx in mir.succs(blk):
+                if lg.blocks[sx].get("cleanup"):
+                    continue
+                if not out <= sin[sx]:
+                    sin[sx] |= out
+                    work.append(sx)
+        rows = {"after copying the element": sorted({str(l) for l, c_ in finals if c_}), "without an element": sorted({str(l) for l, c_ in finals if not c_}),
+                "tag while the element is copied": "None" if not bad_pre else "not None at line %s" % bad_pre[0]}
         r.inst("list_get discriminants", rows)
-        some_idx, none_idx = 0, 1
-        if not rows.get("Some") or rows["Some"][-1] != some_idx or rows["Some"][0] != none_idx:
-            r.bad(lg.path, "Some discriminant", relfile(lg.file), lg.line, "list_get must end the Some case by writing tag %d (and pre-write %d while cloning); writes %s" % (some_idx, none_idx, rows.get("Some")))
-        if rows.get("None") != [none_idx]:
-            r.bad(lg.path, "None discriminant", relfile(lg.file), lg.line, "list_get must write tag %d for None; writes %s" % (none_idx, rows.get("None")))
+        if not any(c_ for _, c_ in finals) or any(l != some_idx for l, c_ in finals if c_) or bad_pre:
+            r.bad(lg.path, "Some discriminant", relfile(lg.file), lg.line, "list_get must end the Some case by writing tag %d (and pre-write %d while cloning); writes %s" % (some_idx, none_idx, rows))
+        if not any(not c_ for _, c_ in finals) or any(l != none_idx for l, c_ in finals if not c_):
+            r.bad(lg.path, "None discriminant", relfile(lg.file), lg.line, "list_get must write tag %d for None; writes %s" % (none_idx, rows))
+
+    def switch_lits(b):
+        """integer constants in the `branches` argument of emit_switch, or of a helper that hands its branches on to emit_switch"""
+        out = []
+        for c in hir.nodes(b.hir["value"], "mcall"):
+            fwd = c["m"] == "emit_switch"
+            if not fwd and c.get("def"):
+                hb = F.body(c["def"])
+                if hb is not None and hb.hir and "Lowerer" in hb.path:
+                    pidx = hir.param_index(hb.hir)
+                    for c2 in hir.nodes(hb.hir["value"], "mcall"):
+                        if c2["m"] == "emit_switch" and len(c2["args"]) > 1:
+                            a1 = hir.peel_refs(hir.strip(c2["args"][1]))
+                            fwd = fwd or (a1.get("k") == "path" and hir.res_local(a1) in pidx)
+            if not fwd:
+                continue
+            for a in c["args"]:
+                if "Vec<(usize" in str(hir.strip(a).get("ty") or ""):
+                    out.append([n.get("v") for n in hir.walk(a) if n.get("k") == "lit" and n.get("lk") == "int"])
+        return out
     for fn, var in (("question_mark", "Some"), ("r#for", "Some")):
         b = F.body("mir::lower::Lowerer::<'r>::" + fn)
         if b is None:
             r.missing("Lowerer::" + fn)
             continue
-        ok = False
-        for c in hir.nodes(b.hir["value"], "mcall"):
-            if c["m"] == "emit_switch":
-                lits = [n.get("v") for n in hir.walk(c["args"][1]) if n.get("k") == "lit" and n.get("lk") == "int"]
-                ok = lits == [0]
-        r.inst("%s switches on Some = 0" % fn, {"ok": ok})
+        ls = switch_lits(b)
+        ok = bool(ls) and all(x == [0] for x in ls)
+        r.inst("%s switches on Some = 0" % fn, {"ok": ok, "branch_constants": ls})
         if not ok:
             r.bad(b.path, "Some discriminant", relfile(b.file), b.line, "%s must take the Some path on discriminant 0" % fn)
     return r
